@@ -504,6 +504,79 @@ func c10SanitizeComposedScenario(x *mc.X) *mc.Outcome {
 	return out
 }
 
+// Fields tagged zog:"" (an explicitly empty name): the tag is present, so it names the field — with the empty
+// key. Paths below are the chain of keys joined by '.', the empty path keyed $root, in Parse and in Validate.
+type c10ETAddr struct {
+	Street string `zog:""`
+}
+
+type c10ET struct {
+	Note  string `zog:""`
+	Addr  c10ETAddr
+	Items []c10ETAddr
+}
+
+func c10EmptyTagScenario(x *mc.X) *mc.Outcome {
+	zh.Reset()
+	zh.Install(x, zh.PoolLIFO, zh.OrderFree)
+	mode := x.Choose(2, "mode")
+	failNote, failAddr, failItem := x.Bool("note fails"), x.Bool("addr.street fails"), x.Bool("items[1].street fails")
+	val := func(fail bool) string {
+		if fail {
+			return "x"
+		}
+		return "long enough"
+	}
+	s := z.Struct(z.Schema{
+		"note":  z.String().Min(3),
+		"addr":  z.Struct(z.Schema{"street": z.String().Min(3)}),
+		"items": z.Slice(z.Struct(z.Schema{"street": z.String().Min(3)})),
+	})
+	var d c10ET
+	var m z.ZogIssueMap
+	pmsg := func() (msg string) {
+		defer func() {
+			if r := recover(); r != nil {
+				msg = firstLine(fmt.Sprint(r))
+			}
+		}()
+		if mode == 0 {
+			m = s.Parse(map[string]any{"": val(failNote), "addr": map[string]any{"": val(failAddr)}, "items": []any{map[string]any{"": "long enough"}, map[string]any{"": val(failItem)}}}, &d)
+		} else {
+			d = c10ET{Note: val(failNote), Addr: c10ETAddr{val(failAddr)}, Items: []c10ETAddr{{"long enough"}, {val(failItem)}}}
+			m = s.Validate(&d)
+		}
+		return ""
+	}()
+	zh.Reset()
+	var want, got []string
+	if failNote {
+		want = append(want, "$root|min")
+	}
+	if failAddr {
+		want = append(want, "addr.|min")
+	}
+	if failItem {
+		want = append(want, "items[1].|min")
+	}
+	for _, k := range sortedKeys(m) {
+		if k != "$first" {
+			for _, is := range m[k] {
+				got = append(got, k+"|"+is.Code)
+			}
+		}
+	}
+	sort.Strings(want)
+	sort.Strings(got)
+	out := &mc.Outcome{Traces: 1, Nontrivial: len(want) > 0, Sig: fmt.Sprintf("emptytag|%d|%v", mode, want)}
+	out.Sample = map[string]any{"mode": mode, "issues": got}
+	if pmsg != "" || !eqStrings(want, got) {
+		x.Note("destination fields tagged zog:\"\" at top level (note), in a nested record (addr.street) and in records of a list (items[i].street); mode %d (0 Parse from a Go map, 1 Validate)", mode)
+		out.Viol = append(out.Viol, &mc.Violation{Key: fmt.Sprintf("C10:empty-zog-tag:%d", mode), What: "issues below a field whose zog tag is explicitly empty are not keyed by the key chain the tag defines", Expected: fmt.Sprint(want), Observed: fmt.Sprintf("panic=%q %v", pmsg, got)})
+	}
+	return out
+}
+
 func c10Items(tier string, mk func(tier string, tags map[string]int, focus []string, deep bool, elems int) mc.Scenario) []Item {
 	var items []Item
 	deep := tier == "thorough"
@@ -581,6 +654,7 @@ func init() {
 			items := c10Items(tier, c10Scenario)
 			items = append(items, Item{Name: "issuepath", MaxDevs: -1, Run: c10IssuePathScenario})
 			items = append(items, Item{Name: "sanitize-composed-maps", MaxDevs: -1, Run: c10SanitizeComposedScenario})
+			items = append(items, Item{Name: "empty-zog-tags", MaxDevs: -1, Run: c10EmptyTagScenario})
 			// keys must not depend on what earlier calls read: sequences that start with a record parsed through any front end
 			items = append(items, callsItemsOpt(tier, "C10", func(class string) bool { return strings.HasPrefix(class, "record") }, true, "depends-on-history", "nested-call-differs", "earlier-result-changed")...)
 			return items
